@@ -46,7 +46,46 @@ def probes(ck, runner):
              {"kind": "impl-vs-oracle", "sql": q, "engine": res if isinstance(res, dict) else res[0], "expected": [["2", None]]}, bad)
 
 
+def directory_component(ck, tier):
+    """Core/Directory.lean vs the real aggregate hash table Directory (needs_resize, resize with power-of-two rounding, linear probing)
+    on random batch histories; oracle on the implementation: after every batch at least one slot is empty and capacity is a power of two."""
+    import vlib
+    comp = "directory"
+    if vlib.HARNESS_DEGRADED:
+        ck.violation("directory/harness", "the directory hook is not available (harness built without internals)", {"correspondence": "gvh directory"}, found_input=False)
+        return
+    res = vlib.run_pair("directory", [ck.seed, 400 if tier == "quick" else 20000])
+    if res["rc"] != 0 or not res["cases"]:
+        ck.violation("directory/harness", "gvh directory failed: " + res["stderr"][-300:], {"correspondence": "gvh directory", "stderr": res["stderr"]}, found_input=False)
+        return
+    diffs = 0
+    resizes = 0
+    for k, line in res["cases"].items():
+        ck.count(comp, 1)
+        ck.nontrivial(line)
+        i, m = res["impl"].get(k), res["model"].get(k)
+        if i and i != "-" and not i.startswith("error"):
+            prev = 512
+            for st in i.split(","):
+                cap, occ = (int(x) for x in st.split(":"))
+                resizes += 1 if cap != prev else 0
+                prev = cap
+                if occ >= cap or cap & (cap - 1):
+                    ck.violation("directory/full-or-not-power-of-two", f"the aggregate directory has {occ} of {cap} slots occupied after a batch ({line[:120]})", {"kind": "impl-vs-oracle", "case": line, "impl": i})
+                    break
+        elif i and i.startswith("error"):
+            ck.violation("directory/error", f"the aggregate directory fails on a batch history: {i} ({line[:120]})", {"kind": "impl-vs-oracle", "case": line, "impl": i})
+        if i != m:
+            diffs += 1
+            if diffs <= 3:
+                ck.violation("directory/model-diff", f"Core/Directory.lean and the real Directory disagree: {line[:160]} impl={str(i)[:120]} model={str(m)[:120]}",
+                             {"correspondence": "Directory.batch vs Directory::needs_resize/resize", "case": line, "impl": i, "model": m}, found_input=False)
+    ck.note(comp, "model_diffs", diffs)
+    ck.note(comp, "resizes_observed", resizes)
+
+
 def body(ck, tier, runner):
+    directory_component(ck, tier)
     probes(ck, runner)
     rng = Rng(ck.seed * 5003 + 7)
     sd = SemDiff(ck, runner, "aggregates")
